@@ -219,7 +219,7 @@ PROPS['C12'] = dict(
          "after the error point, random byte strings; non-trivial = non-empty source",
     exhaustive_subspaces="every prefix and every single-character deletion of the 13 documents; thorough: also every substitution/insertion by 4 characters at every position",
     level_text="Lean 4 theorems for EVERY source string: C12_scan_shape (the token stream ends with exactly one EOF, no EOF before it, an error token only right before it – so the parser can never read past the end), C12_token_positions (each token carries the line and column obtained by advancing over exactly the runes before it: the diagnostics' positions), C12_token_line_in_range (the diagnostic formatter's source-line lookup cannot go out of range). The parser model (every parse* method with the push-back stack of capacity 4, the named-return-token convention, literal conversion errors as diagnostics, checked context assertion) is executable and agrees with the real parser on every generated input incl. the exact diagnostic token kind, line and column; and its totality is PROVED (Props/C12Total.lean): C12_parse_total / C12_parse_total_statement_holds – for every source string, every literal-conversion oracle and every push-back capacity >= 4 the parser model returns a value or the located diagnostic: it never dereferences a missing token, never looks up a source line out of range, never overflows the push-back stack (C12_pushback_bounded: at most 3 tokens are ever pushed back), never reads past the EOF sentinel and never exhausts its fuel (8 per token + 16: it terminates). Proof: an invariant on the virtual token stream stack ++ rest (a failed alternative restores it exactly, a successful one consumes a prefix) carried through all 15 mutually recursive parse methods by induction on the fuel; the scanner's guarantees (C12_scan_shape, C12_token_line_in_range, scanLoop_types) establish it initially.",
-    level_note="PARTIAL: parser totality (no runtime error, no stack-capacity panic, no hang for every token stream) rests on the correspondence run, not on a Lean proof. Stack exhaustion at extreme nesting, regexp running time and the goroutine scheduler are outside the model (the run checks for a leaked scanner goroutine and hangs with a watchdog). strconv and regexp are external; the recognisers are hand-written and compared with the real scanner on every line.",
+    level_note="Parser totality is proved on the model; that the model is the code is the correspondence run. Go stack exhaustion at extreme nesting, regexp running time and the goroutine scheduler are outside the model (the run checks for a leaked scanner goroutine and hangs with a watchdog). strconv and regexp are external; the recognisers are hand-written and compared with the real scanner on every line.",
 )
 
 PROPS['C11'] = dict(
